@@ -201,6 +201,8 @@ def handle (st : DState) : List String → P (DState × String)
     let r := Tr31.step c st.kb (.delBlock (← decStr i)); pure ({ st with kb := r.2 }, replyStep r)
   | ["hist.str"] => do
     let r := Tr31.step c st.kb .str; pure ({ st with kb := r.2 }, replyStep r)
+  | ["hist.setkbpk", k] => do
+    let r := Tr31.step c st.kb (.setKbpk (← decBytes k)); pure ({ st with kb := r.2 }, replyStep r)
   | ["hist.dump", n] => do
     let r := Tr31.step c st.kb (.dump (← decNat n)); pure ({ st with kb := r.2 }, replyStep r)
   -- specification side
